@@ -44,7 +44,7 @@ def segments(run):
     steps = []
     cur = None
     drun = None
-    for e in run.ev:
+    for ei, e in enumerate(run.ev):
         k = e[0]
         if k == "STEP":
             cur = {"n": e[1], "gsc_before": e[2], "runs": [], "news": [], "round": None, "post_gsc": None}
@@ -66,7 +66,7 @@ def segments(run):
                 drun["lsc"] = e[2]
                 drun["lsc_cls"] = e[3]
         elif k == "RUN_END":
-            drun.update(active=e[2], gens=e[3], evals1=e[4], cma_stop=e[5])
+            drun.update(active=e[2], gens=e[3], evals1=e[4], cma_stop=e[5], lsc_after=getattr(run, "lsc_after", {}).get(ei))
             drun = None
         elif k == "NEW" and cur is not None:
             cur["news"].append(e)
@@ -293,6 +293,8 @@ def c06(run):
                     reasons.append("one-shot")
                 if r["active"] and reasons and not (cls == "CMADeme" and reasons == ["cma-stop"] and r.get("cma_stop") is None):
                     out.append(V("C06/still-active-although-stop-reason", f"metaepoch {s['n']}: deme {did} ({cls}) is still active although {reasons} held at the end of its metaepoch"))
+                if r["active"] and not gsc_true and r.get("lsc_after") is True:
+                    out.append(V("C06/still-active-although-lsc-holds-at-end-of-metaepoch", f"metaepoch {s['n']}: deme {did} ({cls}) is still active although its local stop condition ({r.get('lsc_cls')}) holds on the state its metaepoch left behind (it was consulted too early, or its verdict was ignored)"))
                 if not r["active"] and not reasons and cls in ("EADeme", "DEDeme", "SHADEDeme", "LHSDeme", "SobolDeme", "CMADeme", "UserEADeme", "UserDEDeme"):
                     if not (cls == "CMADeme" and r.get("cma_stop") is None):
                         out.append(V("C06/stopped-without-reason", f"metaepoch {s['n']}: deme {did} ({cls}) became inactive although neither its local nor the global stop condition held nor its engine stopped"))
@@ -501,6 +503,14 @@ def c10(run):
             for ind in c["inds"]:
                 if ind not in pop and not (gname == "NBCGeneratorWithLocalMethod" and not d["active"]):
                     out.append(V("C10/candidate-not-in-population", f"{gname}: candidate {ind} of deme {did} is not in its current population"))
+            # (an inactive deme's history is final: read it from the snapshot taken after this step)
+            hist_after = None
+            if gname == "NBCGeneratorWithLocalMethod" and not d["active"] and isinstance(r.get("metaepoch"), int) and r["metaepoch"] < len(run.snaps):
+                hist_after = next((x.get("hist") for x in run.snaps[r["metaepoch"]]["demes"] if x["id"] == did), None)
+            if hist_after:
+                hb = best_of(mx, [f for g in hist_after for _, f in g])
+                if len(c["inds"]) != 1 or c["inds"][0][1] != hb:
+                    out.append(V("C10/just-finished-deme-not-its-best", f"NBCGeneratorWithLocalMethod proposed {c['inds']} for the just-finished deme {did}, whose best individual has fitness {hb}"))
             if gname == "BestPerDeme":
                 b = best_of(mx, [f for _, f in pop])
                 if len(c["inds"]) != 1 or c["inds"][0][1] != b:
